@@ -129,3 +129,97 @@ class SpawnFuture(Unit):
         if f.get("roots") != want_root:
             return "model: future result %r, expected %r: %s" % (f.get("roots"), want_root, summary)
         return None
+
+
+# ---------------------------------------------------------------------------------------------
+# Faults during spawn: harness/k3_spawn_faults.cpp (sequential, cfg plain17) sweeps the k-th fault
+# point (allocation, the scope's nest, the sender's copy/move -- which is how nest() of the real
+# scopes throws --, connect) over spawn_detached and spawn_future in the v2 / v1 scopes and in
+# wrapper scopes with a throwing nest; the direct monitor is evaluated in the driver, every run is
+# also compared with the prediction of the SpawnFault model (handler 'spawnfault').
+def spawn_fault_cases(tier):
+    cases = []
+    for sc in ("v2", "v1", "fv2", "fv1"):
+        for kind in ("v", "d", "a"):
+            cases.append(("detached", sc, kind, "drop"))
+        for kind in ("v", "e", "d", "a"):
+            for post in ("drop", "await"):
+                cases.append(("future", sc, kind, post))
+    # spawn_detached terminates the process only for an error completion
+    cases += [("detached", "v2", "e", "fork"), ("detached", "v2", "v", "fork"),
+              ("detached", "v2", "d", "fork"), ("detached", "v1", "e", "fork")]
+    return cases
+
+
+def _stage(fn, where, nth_nest):
+    if where == "alloc":
+        return "alloc"
+    if where == "nest":
+        return "nestfut" if (fn == "future" and nth_nest == 0) else "nestop"
+    if where in ("move", "copy"):
+        return "nestop"
+    if where == "connect":
+        return "connect"
+    return "none"
+
+
+def run_spawn_faults(chk):
+    import vlib
+    FN = {"detached": "spawn_detached", "future": "spawn_future"}
+    st = chk.cov.setdefault("spawn_faults", {"cases": 0, "runs": 0, "fault_points": 0, "model_compared": 0})
+    exe, err = vlib.build_driver("k3_spawn_faults", "plain17")
+    if err:
+        p = chk.replay_file("build_k3_spawn_faults", {"kind": "build-failure", "driver": "k3_spawn_faults", "error": err})
+        chk.violation("spawn_faults/build", p, no_input=True, text="driver k3_spawn_faults does not compile against /repo")
+        return
+    cases = spawn_fault_cases(chk.tier)
+    lines = [" ".join(c) for c in cases]
+    outs = vlib.run_impl_lines(exe, lines, timeout=300)
+    todo = []   # (case, where, k, impl "t/a/d/s", model line)
+    for c, line, o in zip(cases, lines, outs):
+        fn, sc = FN[c[0]], c[1]
+        st["cases"] += 1
+        rp = {"kind": "spawn-fault-sweep", "case": line, "output": o, "replay": "echo '%s' | %s" % (line, exe)}
+        if o.startswith("CRASH") or " | " not in o:
+            p = chk.replay_file("spawn_faults_%s" % "_".join(c), rp)
+            chk.violation("spawn_faults/%s/%s/crash" % (fn, sc), p, text="%s: %s" % (line, o[:200]))
+            continue
+        parts = o.split(" | ")
+        verdict = parts[-1]
+        runs = next((x[5:] for x in parts if x.startswith("runs=")), "")
+        if verdict.startswith("BAD"):
+            for item in verdict[4:].split(";"):
+                m = re.match(r"(\w+)@(\d+):(.*)$", item)
+                where, k, whats = m.group(1), m.group(2), m.group(3)
+                for w in re.findall(r"(\w+)\(([^)]*)\)", whats):
+                    p = chk.replay_file("spawn_faults_%s_%s_%s" % ("_".join(c), where, w[0]), dict(rp, fault=where, k=k, what=w[0], detail=w[1]))
+                    chk.violation("spawn_faults/%s/%s/%s/%s" % (fn, sc, where, w[0]), p,
+                                  text="%s with the %s fault (#%s) in scope %s: %s (%s)" % (fn, where, k, sc, w[0], w[1]))
+        nth_nest = 0
+        for r in [x for x in runs.split(",") if x]:
+            m = re.match(r"(\w+)@(\d+)=(\S+)$", r)
+            where, k, vec = m.group(1), int(m.group(2)), m.group(3)
+            st["runs"] += 1
+            chk.cov["evaluations"] += 1
+            if where != "none":
+                st["fault_points"] += 1
+            todo.append((c, where, k, vec, "spawnfault %s %s" % (c[0], _stage(c[0], where, nth_nest))))
+            if where == "nest":
+                nth_nest += 1
+    if not todo:
+        return
+    mouts = vlib.model_run([t[4] for t in todo])
+    for (c, where, k, vec, ml), mo in zip(todo, mouts):
+        st["model_compared"] += 1
+        if mo.split(" ")[0] == vec and mo.endswith("refs=0"):
+            chk.cov["traces_validated_against_impl"] += 1
+            chk._distinct.add(("spawn_faults", c, where, k))
+            continue
+        chk.cov["disagreements_checked"] += 1
+        fn, sc = FN[c[0]], c[1]
+        p = chk.replay_file("spawn_faults_model_%s_%s" % ("_".join(c), where),
+                            {"kind": "correspondence", "obligation": "k3_spawn_faults run vs SpawnFault model (threw/allocs/deallocs/started)",
+                             "case": " ".join(c), "fault": where, "k": k, "impl": vec, "model_query": ml, "model": mo,
+                             "replay": "echo '%s' | %s" % (" ".join(c), exe)})
+        chk.violation("spawn_faults/%s/%s/%s/model" % (fn, sc, where), p,
+                      text="%s fault %s@%d: impl threw/allocs/deallocs/started=%s model=%s" % (" ".join(c), where, k, vec, mo))
